@@ -222,8 +222,8 @@ PROPS = {
              "(history + stop-point summary). evaluations counts histories; the 'adoptions' label counts adopted stop points.",
         assumptions=ASSUME_SIM + ["Persistence operations are atomic: a stop leaves a prefix of the operation log"],
         exhaustive_note="stop points are enumerated completely per history when its log has <= 24 (quick) / 64 (thorough) operations; histories are sampled",
-        quick=dict(engines=[rapid('^TestC02', 640, steps=25)]),
-        thorough=dict(engines=[rapid('^TestC02', 6000, shards=14, steps=40, timeout=1500)]),
+        quick=dict(engines=[rapid('^TestC02Restart', 640, steps=25), rapid('^TestC02FullWindow', 16, shards=8, fixed=True)]),
+        thorough=dict(engines=[rapid('^TestC02Restart', 6000, shards=14, steps=40, timeout=1500), rapid('^TestC02FullWindow', 140, shards=14, timeout=1500, fixed=True)]),
     ),
     'C03': dict(
         claimed=True,
@@ -386,7 +386,7 @@ RULE_ADDENDA = {
            "1 in 4 histories start from an adopted session whose pending identifiers stand 1-3 before the 14-bit wrap; every "
            "history draws pipe-like or socket-like connections. writerStuckThenReadFails (a publisher parked inside Write while only the inbound direction fails: the read routine must give the connection up); emptyPayloadCut (a fault right behind a packet without payload). Behind the recording Persistence double sits, per case, its own map (5 in 8), the library's in-memory map (2 in 8) or mqtt.FileSystem on a scratch directory (1 in 8). One case in five runs on a session made the way VolatileSession makes it (the library's map, no checksum layer). brokerSend (inbound traffic of all levels shares the read routine's buffers). CleanSession is requested in 1 of 3 histories.",
     'C02': "Also: the first process asks for a clean session in 1 of 3 histories (the adopting processes never do); the broker "
-           "model forgets its session on a CONNECT which carries the flag. Behind the recording Persistence double sits, per case, its own map (5 in 8), the library's in-memory map (2 in 8) or mqtt.FileSystem on a scratch directory (1 in 8).",
+           "model forgets its session on a CONNECT which carries the flag. Behind the recording Persistence double sits, per case, its own map (5 in 8), the library's in-memory map (2 in 8) or mqtt.FileSystem on a scratch directory (1 in 8). TestC02FullWindow: adoption of a synthetic store with 16384, 16383 or 8192 transfers of one level pending, the oldest at identifier 0, 1, 0x1fff, 0x2000, 0x3ffe or 0x3fff, for level 2 with 0, 1, half, all but one or all at the PUBREL stage: exactly these are on the first connection, in order; a further publish gets ErrMax exactly when 16384 are pending.",
     'C03': "Also: the first process asks for a clean session in 1 of 3 histories (the adopting processes never do); the broker "
            "model forgets its session on a CONNECT which carries the flag. Behind the recording Persistence double sits, per case, its own map (5 in 8), the library's in-memory map (2 in 8) or mqtt.FileSystem on a scratch directory (1 in 8).",
     'C04': "Also: restart optionally after an orderly end (Close from another goroutine while the application holds the last "
